@@ -837,6 +837,9 @@ func (e *Enc) elemFams(elem types.Type) []heapName {
 // deferred calls
 
 func (e *Enc) runDefers(x *ssa.RunDefers) {
+	if r, ok := x.Block().Instrs[len(x.Block().Instrs)-1].(*ssa.Return); ok && e.fc != nil {
+		e.atReturnClauses(r, true, nil)
+	}
 	for i := len(e.defers) - 1; i >= 0; i-- {
 		d := e.defers[i]
 		if d.Block() == x.Block() || d.Block().Dominates(x.Block()) {
@@ -949,6 +952,12 @@ func (e *Enc) atCallAssertsPhase(site ssa.Instruction, key string, args []Value,
 			}
 		}
 		t, err := ctx.EvalBool(ac.C.E)
+		if err != nil && !ac.Assume && strings.Contains(err.Error(), "unknown identifier") {
+			// the call site the clause now lands on does not have the clause's variables in scope: the code
+			// the clause was written for is gone
+			e.assertOb(fmt.Sprintf("at@%s#%d.%d", shortName(ac.Callee), ac.Ord, i+1), tFalse, "assertion before call to "+ac.Callee+" cannot be stated at this call site ("+err.Error()+"): "+ac.C.Src, posOf(site))
+			continue
+		}
 		if err != nil {
 			e.fatal("at call %s#%d: %v", ac.Callee, ac.Ord, err)
 		}
